@@ -1,6 +1,7 @@
 SPECIFICATION Spec
-CONSTANTS Clients = {1, 2} Studies = {1} MaxTrials = 4 FixCreate = TRUE
+CONSTANTS Clients = {1, 2} Studies = {1} MaxTrials = 4 FixCreate = TRUE PointReadCaches = FALSE
 INVARIANT ViewEqualsBackend
 INVARIANT FinishedNeverStale
 INVARIANT UnfIsUnfinishedInCache
+INVARIANT WatermarkSound
 CHECK_DEADLOCK FALSE
